@@ -184,11 +184,34 @@ def _():
     return ufl.FacetNormal(m), np.array([[0.5]])
 
 
-@ereg("facet_rank1_quadrilateral", "")
+@ereg("facet_rank1_quadrilateral", "q")
 def _():
     m = mesh("quadrilateral")
     u = ufl.TrialFunction(space(m, "Q", 1))
     return ufl.dot(ufl.grad(u), ufl.FacetNormal(m)), SEG
+
+
+@ereg("facet_rank1_P2_triangle", "q")
+def _():
+    m = mesh("triangle")
+    u = ufl.TrialFunction(space(m, deg=2))
+    return ufl.as_vector([u, u.dx(0)]), SEG
+
+
+@ereg("facet_rank1_P2_tetrahedron", "")
+def _():
+    m = mesh("tetrahedron")
+    u = ufl.TrialFunction(space(m, deg=2))
+    f = ufl.Coefficient(space(m))
+    return f * u, FTRI
+
+
+@ereg("facet_coef_P2_triangle_perm", "q")
+def _():
+    m = mesh("triangle")
+    f = ufl.Coefficient(space(m, deg=2))
+    g = ufl.Coefficient(space(m, "DG", 1))
+    return ufl.as_vector([f * g, f.dx(1)]), SEG
 
 
 def lower_expression(expr, complex_mode=False):
